@@ -34,7 +34,7 @@ class C09(BaseCheck):
              'scales.resurrector:ResurrectorSink.AsyncProcessRequest', 'scales.resurrector:ResurrectorSink.Close')
   REQUIRED_ANCHORS = ANCHORS
   REQUIRED_CLASSES = ('thrift', 'mux', 'multi-endpoint', 'outage:refuse', 'outage:blackhole', 'down-at-first-connect', 'recovered',
-                      'fail-fast-seen', 'backoff-capped', 'closed-while-down', 'back-under-the-same-name-at-another-address', 'peer-pings-the-client-too', 'closed-on-error', 'staggered-outages',
+                      'fail-fast-seen', 'backoff-capped', 'closed-while-down', 'back-under-the-same-name-at-another-address', 'peer-pings-the-client-too', 'outage-begins-mid-reply', 'closed-on-error', 'staggered-outages',
                       'recover:first-down-first', 'recover:last-down-first', 'rotation-during-outage', 'waiters-at-outage', 'stock-resurrector',
                       'direct:close-same-instant-attempt-completes', 'outage:host-goes-silent', 'outage:host-goes-silent-mux', 'outages:thrift', 'outages:mux', 'outage:accept-drop')
   ASSUMPTIONS = ('initial_wait_interval > 1 (the implementation\'s x**exponent back-off only grows above 1)',
@@ -356,7 +356,13 @@ class C09(BaseCheck):
     class Pol(servers.DefaultPolicy):
       silent = False
 
+      cut_next = 0
+
       def __call__(self, server, conn, req):
+        if self.cut_next:
+          # the host dies in the middle of writing this reply: a prefix of the frame, then the connection ends
+          k_, self.cut_next = self.cut_next, 0
+          return {'delay': 0.002, 'cut': k_}
         return {'drop': True} if self.silent else {'delay': 0.002}
 
       def ping(self, server, conn, tag):
@@ -419,6 +425,13 @@ class C09(BaseCheck):
             w.call('echo', None, timeout=1.0)
           if rng.random() < 0.5:
             env.advance(0.0005)
+        if rng.random() < 0.3:
+          # the outage begins in the middle of a reply
+          classes.add('outage-begins-mid-reply')
+          pol.cut_next = rng.choice([1, 3, 4, 5, 11, 30])
+          w.call('echo', None, timeout=1.0)
+          env.advance(0.01)
+          pol.cut_next = 0
         srv.sim.mode = mode
         if rng.random() < 0.3:
           # the host goes dark rather than resetting its connections: requests in flight are never
@@ -490,6 +503,12 @@ class C09(BaseCheck):
     env.advance(3 * mx + 10)
 
     # ---------------------------------------------------------------- oracles
+    out.obligations += 1
+    for cid_, vt_ in w.net.read_spins[:1]:
+      # (the simulation broke the loop after 2000 reads; for real it never ends and nothing else runs again:
+      # no fail-fast, no reconnection, no resumption)
+      out.violate('fail-fast:reader-spins-at-end-of-stream', 'a client read loop read connection %d 2000 times in one instant after the '
+                  'peer had closed it in the middle of a frame, without yielding' % cid_, facts)
     attempts = [a for a in srv.sim.connect_attempts]
     reqs = srv.requests
     retries_total = 0
